@@ -845,7 +845,9 @@ pub fn array_join(
 
         let part = match elem {
             JsValue::Undefined | JsValue::Null => String::new(),
-            _ => interp.to_js_string(&elem).to_string(),
+            // ToString of the element: nested arrays join themselves, objects use their
+            // toString method
+            _ => interp.coerce_to_string(&elem)?.to_string(),
         };
         parts.push(part);
     }
